@@ -141,6 +141,12 @@ def check_tags(model: Model, run: Run, folder: Folder) -> bool:
             concrete = [c for c in classes if c != fi.cls]
             if concrete and not model.classes[fi.cls].is_dataclass and all(b in ("object",) or b not in model.classes for b in model.classes[fi.cls].bases):
                 classes = concrete
+            # an abstract base (its own pack only raises NotImplementedError) is never the class of an object that is written
+            pk_ = model.classes[fi.cls].methods.get("pack")
+            if concrete and pk_ is not None and not isinstance(pk_.node, ast.Lambda):
+                body_ = [b for b in pk_.node.body if not (isinstance(b, ast.Expr) and isinstance(b.value, ast.Constant))]
+                if len(body_) == 1 and isinstance(body_[0], ast.Raise):
+                    classes = concrete
         for k in classes:
             try:
                 if isinstance(tag, ast.Name) and tag.id == "tag":
